@@ -92,5 +92,8 @@ fn c01_group_pairs_small() {
     }
 }
 
+// Units that feed k reports with one match key through `group_report_pairs_ordered` (k = 2, 3, 5, 6, concrete) were
+// written after seeded change C01-1 and do not close: the real BTreeMap does not finish in 15 min even for k = 2.
+
 #[cfg(test)]
 include!(concat!(env!("IPA_VERIF_DIR"), "/.build/playback/agg.rs"));
